@@ -100,4 +100,24 @@ theorem fault_after_commit_is_visible :
     killView (run (init [(Name.U, [1])]) ((updTrace .U [2] [] []).take 12 ++ [.unlink (.tmp 1)])) .U = .clean [2] := by
   decide
 
+/-- **The two layers agree.** The system-call protocol of update (layer L0), run on a file holding
+    `old`, with the new first line the store formats and the old tail it copies (in whatever two
+    pieces the reader buffer and copy_file_range split it), leaves — durably, from the
+    acknowledgement on, in every post-crash state — exactly the content the directory-map model
+    (layer L1, `Store.update`) installs: `Store.newContent`. -/
+theorem l0_update_installs_l1_content (ps : Store.ParamSet) (id : Nat) (now : Int) (salt pw old r1 r2 : Bytes)
+    (hsplit : r1 ++ r2 = Rec.afterFirstLine old) :
+    durableAtAck (init [(Name.U, old)])
+      (updTrace .U (Rec.formatLine ps.formatId now id (Rec.hashStrOf salt (ps.digest salt pw))) r1 r2) .U
+      (.clean (Store.newContent ps id now salt pw old)) = true := by
+  have h := C09.model_update_durable old (Rec.formatLine ps.formatId now id (Rec.hashStrOf salt (ps.digest salt pw))) r1 r2
+  simp only [Store.newContent, ← hsplit]
+  simpa [List.append_assoc] using h
+
+/-- The same for add: the reserved empty file is replaced by exactly L1's content. -/
+theorem l0_add_installs_l1_content (ps : Store.ParamSet) (id : Nat) (now : Int) (salt pw : Bytes) :
+    durableAtAck (init []) (addTrace .A (Store.newContent ps id now salt pw [])) .A
+      (.clean (Store.newContent ps id now salt pw [])) = true :=
+  C09.model_add_durable _
+
 end Whawty.Persist.C15
